@@ -292,6 +292,12 @@ def main():
             rows = [", ".join(str(x) for x in enc[key][i:i + 16]) for i in range(0, 256, 16)]
             f.write(",\n".join("  " + r for r in rows))
             f.write(">>\n")
+        # NOT normative: the Mac OS Roman table of current systems (python's mac_roman codec), used only to describe a
+        # recorded deviation of the library (its MacRoman decoder follows this table instead of Annex D)
+        modern = [ord(bytes([b]).decode("mac_roman")) for b in range(256)]
+        f.write("ModernMacRomanTable == <<\n")
+        f.write(",\n".join("  " + ", ".join(str(x) for x in modern[i:i + 16]) for i in range(0, 256, 16)))
+        f.write(">>\n")
         f.write("=============================================================================\n")
     print("differences from python codecs:", d)
 
